@@ -284,6 +284,8 @@ func rulesC11(e *Engine, r *Report) {
 	// ---------------------------------------------------------------- R11.6
 	r.Rule("R11.6", "a resumed file is tiled from exactly the ranges the receiver lacks: the gap scan in recover() sorts the receiver's part list by Beg, moves its position to the END of every part it examines (never to its Beg - the part itself is held), ends a gap at the next part's Beg and the tail at the file size - shared with R07.7; recoverFile.Allocate then hands out exactly those ranges (R11.1)")
 	e.checkGapScan(r, "R11.6")
+	// ---------------------------------------------------------------- R11.7
+	e.shareRule(r, "C19", "R19.4", "R11.7", "chunks have a positive size: the queue tag's chunk size is the tag's, else the source's bin size - never 0 (a resumed file's allocator has no `0 = the rest` convention: it would hand out empty chunks for ever and the missing ranges would never be tiled)")
 }
 
 // checkRecoverAllocate: the allocator of a resumed file hands out exactly its
